@@ -818,6 +818,24 @@ fn long_history(rep: &mut Report, rng: &mut Rng, h: u64, steps: usize) {
                     rep.count("long_admin_ok");
                 }
             }
+        } else if roll < 74 {
+            // ---- role management attempted directly by a role holder (or anybody), with its own signature:
+            // no role has an admin role anybody holds, so only the controller - through a consumed
+            // operation - may grant or revoke
+            let (i, j, r) = (rng.idx(4), rng.idx(4), rng.idx(3));
+            let grant = rng.chance(1, 2);
+            let f = if grant { "grant_role" } else { "revoke_role" };
+            let a: SVec<Val> = args!(&e, m.acc[j], Symbol::new(&e, ROLES[r]), m.acc[i]);
+            m.su.w.auth(&[(m.acc[i].clone(), Inv::new(&m.su.c, f, a.clone()))]);
+            let got: Result<Val, Fail> = invoke(&e, &m.su.c, f, a);
+            rep.evaluations += 1;
+            what = format!("{f}(acct{j}, {}) called directly by acct{i} (holds that role: {}) -> {}", ROLES[r], m.has[i][r], tag(&got));
+            rep.op(format!("[{step}] L{} {what}", m.su.w.ledger()));
+            rep.case(format!("long/direct-{f}/caller-holds-role={}/{}", m.has[i][r], got.is_ok()));
+            rep.check("bypass", got.is_err(), &format!("C09/bypass/long/{f}/by-an-account-without-going-through-the-timelock"), || what.clone());
+            if got.is_ok() {
+                m.has[j][r] = grant;
+            }
         } else if roll < 80 && !m.ops.is_empty() {
             // ---- cancel
             let i = rng.idx(m.ops.len());
